@@ -8,7 +8,7 @@ Record case := Case {
   kind : N;            (* which function, see [model_out] *)
   args : list str;
   obs : str;           (* what the implementation returned *)
-  aux : str            (* kind 0: Safe(obs); kinds 1-5: CertsPrefix(issuer); else unused *)
+  aux : str            (* kind 0: Safe(obs); kinds 1-5: CertsPrefix(issuer); kinds 9-12: Safe(issuer key); else unused *)
 }.
 
 Section Run.
@@ -60,8 +60,10 @@ Section Run.
     | 8 => negb (good_str (arg c 0)) ||
         (good_str o && list_prefixb (kc (arg c 0) ++ [lock_dir_name]) (kc o) &&
          (length (kc o) =? length (kc (arg c 0)) + 2)%nat)
-    | 9 | 10 | 12 => good_str o && list_prefixb [prefix_acme] (kc o) && existsb (str_eqb users_dir_name) (kc o)
-    | 11 => good_str o && list_prefixb [prefix_acme] (kc o) && existsb (str_eqb challenge_tokens_dir_name) (kc o)
+    (* aux = the implementation's Safe(issuer key): acme/<safe issuer>/users/... by whole components *)
+    | 9 | 10 | 12 => good_str o && list_prefixb (prefix_acme :: kc (aux c) ++ [users_dir_name]) (kc o)
+    | 11 => good_str o && list_prefixb (prefix_acme :: kc (aux c) ++ [challenge_tokens_dir_name]) (kc o) &&
+            (length (kc o) =? length (kc (aux c)) + 3)%nat
     | _ => false
     end.
 
